@@ -161,7 +161,11 @@ func (f *Func) AssignIDs() error {
 				got := n.ID()
 				return errors.Errorf("invalid local ID in function %q, expected %s, got %s", f.Ident(), enc.LocalID(want), enc.LocalID(got))
 			}
-			n.SetID(id)
+			if n.ID() != id {
+				// Write only when the ID changes: IDs that are already assigned are
+				// read by concurrent printers without holding the lock.
+				n.SetID(id)
+			}
 			id++
 		}
 		return nil
